@@ -179,7 +179,16 @@ def dominating_guards(site_node: ast.AST) -> List[Tuple[str, bool]]:
     enclosing `if T:` -> (T, True) / else-branch -> (T, False); earlier sibling `if T: raise/return/continue` -> (T, False)."""
     out: List[Tuple[str, bool]] = []
     child: ast.AST = site_node
+    from .pyfacts import named_predicate
+    fn0 = next((x for x in ancestors(site_node) if isinstance(x, (ast.FunctionDef, ast.AsyncFunctionDef))), None)
     for a in ancestors(site_node):
+        if isinstance(a, ast.If) and fn0 is not None:
+            rt = named_predicate(fn0, a.test)               # `if is_cached:` reads as the condition the local names
+            if rt is not a.test:
+                if any(child is s for s in a.body):
+                    out.append((norm(rt), True))
+                elif any(child is s for s in a.orelse):
+                    out.append((norm(rt), False))
         if isinstance(a, ast.If):
             if any(child is s for s in a.body):
                 out.append((norm(a.test), True))
